@@ -110,6 +110,12 @@ def generate(seed, tier="quick"):
                 site["obs"] = obs
                 sites[sid] = site
                 per_site.append(_events_for(rng, sid, site, obs))
+                if site["op"] == "item" and site["prev"] is not None and site["place"] != "direct":
+                    # a key of the existing dict is fetched (s[key]) by some evaluation but never compared: it belongs to the union of keys
+                    used = [e["key"] for e in per_site[-1]]
+                    spare = [k for k, _ in site["prev"][1] if not any(V._safe_eq(V.pyval(k), V.pyval(u)) for u in used)]
+                    if spare and rng.random() < 0.6:
+                        per_site[-1].insert(rng.randint(0, len(per_site[-1])), {"t": "cmp", "site": sid, "key": rng.choice(spare), "access_only": True, "vals": [["int", 0]], "style": "rec"})
         # a site whose hand-written argument reads a global (re-evaluation clause)
         if rng.random() < 0.25:
             sid_n += 1
